@@ -3,6 +3,7 @@ package main
 import (
 	"fmt"
 	"go/ast"
+	"go/constant"
 	"go/token"
 	"go/types"
 	"sort"
@@ -43,6 +44,18 @@ func minLenAt(fn *ssa.Function, s ssa.Value, use ssa.Instruction) int64 {
 		iff, ok := b.Instrs[len(b.Instrs)-1].(*ssa.If)
 		if !ok {
 			continue
+		}
+		// strings.HasPrefix(s, "lit") / HasSuffix on the true side imply len(s) >= len("lit")
+		if call, ok := iff.Cond.(*ssa.Call); ok {
+			if callee := call.Call.StaticCallee(); callee != nil && callee.Pkg != nil && callee.Pkg.Pkg.Path() == "strings" && (callee.Name() == "HasPrefix" || callee.Name() == "HasSuffix") && len(call.Call.Args) == 2 && sameSSA(call.Call.Args[0], s, 0) {
+				if k, isK := call.Call.Args[1].(*ssa.Const); isK {
+					if lit, isStr := constStringVal(k); isStr && int64(len(lit)) > best {
+						if succ := b.Succs[0]; len(succ.Preds) == 1 && succ.Dominates(use.Block()) {
+							best = int64(len(lit))
+						}
+					}
+				}
+			}
 		}
 		for _, cmp := range comparisonsOf(iff.Cond, 0) {
 			// normalise to len(s) OP k
@@ -121,9 +134,8 @@ func minLenAt(fn *ssa.Function, s ssa.Value, use ssa.Instruction) int64 {
 
 func constStringVal(k *ssa.Const) (string, bool) {
 	if b, ok := k.Type().Underlying().(*types.Basic); ok && b.Info()&types.IsString != 0 && k.Value != nil {
-		s := k.Value.ExactString()
-		if len(s) >= 2 {
-			return s[1 : len(s)-1], true
+		if k.Value.Kind() == constant.String {
+			return constant.StringVal(k.Value), true
 		}
 	}
 	return "", false
